@@ -1,7 +1,7 @@
 #!/bin/bash
-# tools/seed_ingest.sh C03 b  : copy /tmp/seed2_C03/_seed into seeded/C03b, remove the worktree, confirm.
+# tools/seed_ingest.sh C03 b  : copy ${SEEDSRC:-/tmp/seed2_}C03/_seed into seeded/C03b, remove the worktree, confirm.
 set -e
-P=$1; S=${2:-b}; SRC=/tmp/seed2_$P/_seed; D=/verif/seeded/$P$S
+P=$1; S=${2:-b}; PFX=${SEEDSRC:-/tmp/seed2_}; SRC=$PFX$P/_seed; D=/verif/seeded/$P$S
 mkdir -p $D
 cp $SRC/patch.diff $D/patch.diff
 cp $SRC/demo_*.py $D/
@@ -9,8 +9,8 @@ python3 - "$SRC/notes.json" "$D/meta.json" <<'PY'
 import json,sys
 n=json.load(open(sys.argv[1]))
 json.dump({"description":n.get("description",""),"needs_to_manifest":n.get("needs_to_manifest",""),
- "author":"independent sub-agent (round 2) given only the property text and a scratch worktree"},open(sys.argv[2],"w"),indent=1)
+ "author":"independent sub-agent (round " + __import__("os").environ.get("SEEDROUND","2") + ") given only the property text and a scratch worktree"},open(sys.argv[2],"w"),indent=1)
 PY
-git -C /repo worktree remove --force /tmp/seed2_$P || true
-rm -rf /tmp/seed2_$P
+git -C /repo worktree remove --force $PFX$P || true
+rm -rf $PFX$P
 cd /verif && python3 tools/seed_confirm.py $P$S
